@@ -26,6 +26,8 @@ pub static EXIT_FD: AtomicI32 = AtomicI32::new(-1);
 pub static EXIT_PID: AtomicI32 = AtomicI32::new(0);
 pub static EXIT_CMD: AtomicI32 = AtomicI32::new(0); // cmd0 | cmd1<<8
 pub static EXIT_FIRED_AT: AtomicI64 = AtomicI64::new(0);
+/// the kernel's verdict on the child at the moment the planned exit was delivered: si_code | si_status << 8 (0 = unknown)
+pub static EXIT_SIGINFO: AtomicI64 = AtomicI64::new(0);
 
 // statistics
 pub static SLEEPS: AtomicU64 = AtomicU64::new(0);
@@ -126,6 +128,7 @@ pub fn plan_exit(at: i64, fifo_fd: i32, pid: i32, cmd0: u8, cmd1: u8) {
     EXIT_PID.store(pid, SeqCst);
     EXIT_CMD.store(cmd0 as i32 | (cmd1 as i32) << 8, SeqCst);
     EXIT_FIRED_AT.store(0, SeqCst);
+    EXIT_SIGINFO.store(0, SeqCst);
     EXIT_AT.store(at, SeqCst);
 }
 
@@ -145,7 +148,11 @@ pub fn fire_exit() {
         let mut info: libc::siginfo_t = std::mem::zeroed();
         loop {
             let r = libc::syscall(libc::SYS_waitid, libc::P_PID, pid, &mut info as *mut _, libc::WEXITED | libc::WNOWAIT, 0usize);
-            if r == 0 || *libc::__errno_location() != libc::EINTR {
+            if r == 0 {
+                EXIT_SIGINFO.store(info.si_code as i64 | (info.si_status() as i64) << 8, SeqCst);
+                break;
+            }
+            if *libc::__errno_location() != libc::EINTR {
                 break;
             }
         }
